@@ -40,12 +40,11 @@ Definition C21_run (i : C21_in) : C21_out :=
   let o := opts_of i in
   let '(_, _, _, _, _, _, same) := i in
   let '(f1, r1) := doctor o f in
-  if (negb (o_dry o) || negb same) && known_stale_ptr f then
-    (* F-C21-1: what is destroyed depends on the byte layout; only probe and plan are compared *)
-    (99, r_findings r1, r_phases r1, false, 99, false, None, 0)
-  else
-    let passed := match verify f1 with Ok true => true | _ => false end in
-    let '(f2, r2) := doctor (if same then o else default_opts) f1 in
-    let '(f3, code) := try_open f2 in
-    (r_status r1, r_findings r1, r_phases r1, passed, r_status r2,
-     code =? 0, (if code =? 0 then Some (f_rows f3) else None), (if code =? 0 then f_nvec f3 else 0)).
+  let passed := match verify f1 with Ok true => true | _ => false end in
+  let '(f2, r2) := doctor (if same then o else default_opts) f1 in
+  let '(f3, code) := try_open f2 in
+  (r_status r1, r_findings r1, r_phases r1, passed, r_status r2,
+   code =? 0, (if code =? 0 then Some (f_rows f3) else None), 
+   (* two dry runs on a damaged vector index: the count is then what Memvid::open's own replay leaves
+      (it rebuilds the index from the pending embeddings only -- C14's matter), not compared *)
+   (if (o_dry o && same && vec_bad (f_vec f)) then 0 else if code =? 0 then f_nvec f3 else 0)).
